@@ -18,7 +18,7 @@ CLAIMED = {
     ),
     'C09': dict(
         technique='runtime monitor of boundary signals, decoded wire logs, socket close events and on-close callbacks under exhaustive cut-point enumeration of termination/close/process-death requests',
-        text='Exploration with exhaustive sub-spaces: every scheduler step of 4 (thorough 5) deterministic baseline scenarios x requester {A, B, both} x action {terminate, close, peer process death}, then seeded random scenarios and cut-points; obligations (a)-(e) of the statement are decided at world quiescence only (half-open = quiescent and still open).',
+        text='Exploration with exhaustive sub-spaces: every scheduler step of 4 (thorough 5) deterministic baseline scenarios x requester {A, B, both} x action {terminate, close, peer process death}, then seeded random scenarios and cut-points; obligations (a)-(e) of the statement are decided at world quiescence only (half-open = quiescent and still open). Plus a real endpoint against a conformant scripted peer that reads slowly through small socket buffers, acknowledges or refuses, sends or answers SESS_TERM and then waits for the endpoint to close; plus Agent.shutdown() of real agents holding 1-3 contacts at different stages.',
         note=_NOTE + ' A refused terminate() imposes only "session unharmed". Agent.shutdown() over several contacts is exercised in the C18 agent scenarios.',
     ),
     'C13': dict(
@@ -33,7 +33,7 @@ CLAIMED = {
     ),
     'C14': dict(
         technique='runtime monitor in virtual time: send_message/recv_raw recorder on both real endpoints judged by a keepalive/idle timer model; get_session_parameters() vs announced values; icontract postcondition on the segment-size controller plus wire bound',
-        text='Exploration over the 6x6 keepalive grid x idle times with traffic placed 1 ms before, at and 1 ms after each deadline (virtual clock), a mute-peer family for the terminating-endpoint clause (idle times x keepalives x request offsets x in-flight bundle) and seeded adaptive-segment-size runs with 1 ms network latency; every KEEPALIVE must follow exactly K of own silence, no silence longer than K, SESS_TERM(idle-timeout) exactly at I without traffic, closure by request + I.',
+        text='Exploration over the 6x6 keepalive grid x idle times with traffic placed 1 ms before, at and 1 ms after each deadline (virtual clock), a mute-peer family for the terminating-endpoint clause (idle times x keepalives x request offsets x in-flight bundle) and seeded adaptive-segment-size runs with 1 ms network latency; every KEEPALIVE must follow exactly K of own silence, no silence longer than K, SESS_TERM(idle-timeout) exactly at I without traffic, closure by request + I. The mute-peer family also covers termination started by the idle timer itself (SESS_TERM at I, closed by 2I).',
         note=_NOTE + ' Timer verdicts use the virtual clock only.',
     ),
     'C18': dict(
@@ -88,12 +88,12 @@ CLAIMED = {
     ),
     'C11': dict(
         technique='runtime differential monitor on transmitted bytes: forwarded output of the real agent decoded by the independent RFC 9171 decoder and compared field by field with the received bundle',
-        text='Exploration over the product of hop-by-hop block combinations (previous node none/other/self, 0-2 hop counts, age, 0-2 unknown blocks), CRC types, dense/sparse/permuted numbering, creation time zero or not, lifetimes, dwell times and two routes; plus histories of different bundles through one agent to expose state carried between forwards.',
+        text='Exploration over the product of hop-by-hop block combinations (previous node none/other/self, 0-2 hop counts, age, 0-2 unknown blocks), CRC types, dense/sparse/permuted numbering, creation time zero or not, lifetimes, dwell times and two routes; two Previous Node / Bundle Age blocks, anonymous source; plus histories of different bundles through one agent to expose state carried between forwards.',
         note=_NOTE,
     ),
     'C19': dict(
         technique='runtime monitor of administrative records at the CL boundary against a reference expectation model, over the complete flag x report-to x outcome product',
-        text='Exploration with an exhaustive sub-space: all 2^5 request-flag subsets x 3 report-to values x 8 outcomes (incl. forward with real fragmentation, security failure, duplicate) x 3 CRC types = 2304 combinations, each on a fresh agent; report presence, addressee, subject, asserted set, times, flags and CRCs are checked.',
+        text='Exploration with an exhaustive sub-space: all 2^5 request-flag subsets x 3 report-to values x 8 outcomes (incl. forward with real fragmentation, security failure, duplicate) plus forwarding that fails for lack of a transmit route x 3 CRC types = 2304 combinations, each on a fresh agent; report presence, addressee, subject, asserted set, times, flags and CRCs are checked.',
         note=_NOTE + ' For "no route" and "duplicate" only the only-if direction and content are enforced.',
     ),
     'C06': dict(
